@@ -8,7 +8,7 @@ HOOKS = {
 }
 ENGINES = [
   {'name': 'ir2c+cbmc', 'path': 'tools/ir2c.py, tools/vlib.py',
-   'serves_properties': ['C01','C02','C03','C04','C05','C06','C07','C08','C10','C11','C12','C13','C16','C17','C18','C19'], 'kind_free_text': 'real draco C++ -> clang++-14 LLVM IR -> own IR-to-C translator -> CBMC 6.11 bounded model checking (SAT/SMT verdict), counterexamples replayed natively'},
+   'serves_properties': ['C01','C02','C03','C04','C05','C06','C07','C08','C09','C10','C11','C12','C13','C16','C17','C18','C19'], 'kind_free_text': 'real draco C++ -> clang++-14 LLVM IR -> own IR-to-C translator -> CBMC 6.11 bounded model checking (SAT/SMT verdict), counterexamples replayed natively'},
 ]
 NOTES = ('Every check is ./vcheck <id> --tier quick|thorough (cwd /verif). Exit 0 = all obligations discharged by the solver within the stated bounds; '
          '1 = counterexample found and replayed against the real code (VIOLATION line); 2 = broken/inconclusive (never reported as success). '
@@ -48,6 +48,10 @@ CLAIMED = {
   'text': '2-safety proof on the real AttributeQuantizationTransform + PointAttribute objects: the decoded value of a point is independent of the other point, for every q and all float inputs; explicit parameters are stored verbatim; the real SequentialQuantizationAttributeEncoder::Init takes them from the options of THIS attribute id whatever the other keys hold.',
   'design_ref': 'DESIGN.md 3/C12', 'technique': _T + '; self-composition, float arithmetic as uninterpreted functions',
   'note': _N + 'Bounds: 2 points x 2 components; 2 attributes, option keys 0..3. The option store (std::map per key) is replaced by a table model (explicit specialisation of 4 accessors). The kd-tree encoder\'s option reads and the Encoder/ExpertEncoder front ends are outside the claim.'},
+ 'C09': {
+  'text': 'Relational obligation on the two real functions the property names: MeshEdgebreakerEncoder::ComputeNumberOfEncodedPoints (encoder-side simulation of the seam handling) and MeshEdgebreakerDecoderImpl::AssignPointsToCorners (what the decoder does) run on the SAME symbolic connectivity - any corner table satisfying the C13 invariants, any attribute corner->vertex map, consistent boundary / seam flags, any compatible corner->point map of the input mesh - and must yield the same number of points. Found a genuine mismatch for input meshes with duplicate points (recorded as a known finding, KNOWN-FINDING line, exit 0) and proves the equality for deduplicated input.',
+  'design_ref': 'DESIGN.md 3/C09', 'technique': _T + '; relational (encoder-side count vs decoder-side construction on shared symbolic state), known finding re-proved with its input class excluded',
+  'note': _N + 'Bounds: 2 faces / <= 4 vertices / 1 attribute connectivity. ASSUMED: the decoder reconstructs the encoder\'s connectivity (that is C01 for Edgebreaker, outside the encoded units), the C13 invariants, flags consistent with the connectivity. Outside: face counts, the sequential encoder (counts are the input\'s), point clouds, more than one attribute connectivity.'},
  'C13': {
   'text': 'Inductive decomposition of CornerTable::Init on the real member functions: ComputeOppositeCorners on EVERY triangle list, BreakNonManifoldEdges and ComputeVertexCorners each from ANY state satisfying the previous phase\'s post-condition; asserted: symmetric pairing across a shared oppositely oriented edge of two non-degenerate non-mirrored faces, degenerate faces unlinked, manifold edges connected, every corner maps through the parent relation to its input vertex id, all corners of a vertex lie on the one fan reached from its representative corner; plus the whole Init on two triangles.',
   'design_ref': 'DESIGN.md 3/C13', 'technique': _T + '; inductive (one-phase-from-arbitrary-consistent-state) decomposition',
@@ -86,7 +90,6 @@ _WIP = 'check not built yet in this revision (work in progress, see DESIGN.md se
 NOT_APPLICABLE = {p: _WIP for p in ['C%02d' % i for i in range(1, 21)]}
 NOT_APPLICABLE.update({
  'C20': 'KeyframeAnimation is a PointCloud subclass encoded by the sequential point-cloud codec; only LinearSequencer ordering is encodable, which is too thin to decide the property (DESIGN.md 4)',
- 'C09': 'both sides of the comparison run over CornerTable/MeshAttributeCornerTable built inside encoder/decoder objects; CornerTable::Init alone gives no solver verdict on 2 symbolic triangles in 20 min and no leaf kernel implies the equality (DESIGN.md 5)',
  'C14': 'dedup runs on std::unordered_map (bucket policy out of line in libstdc++, no IR), cleanup/stripifier on constructed CornerTable/Mesh; nothing encodable carries the property (DESIGN.md 5)',
  'C15': 'writers format through snprintf/ostream (libc/libstdc++ without IR) and readers parse that text; whole-file runs cannot be encoded (DESIGN.md 5)',
 })
